@@ -41,6 +41,10 @@ def build_world(root, cube, K, ulo, uhi, nd, c, fmt, memmap, r, distance_unit='k
     dist = [(d0 or D0) * r ** i for i in range(nd)]
     theta = theta or THETA
     nbands = len(theta)
+    hv = zlib.crc32(repr((K, nm, fmt, ulo, uhi, nd, c)).encode())
+    # the unit in which the aperture radii are handed to the fitter (arcsec, arcmin or degrees).  Another unit costs the request
+    # theta*d one ulp, so such worlds get one extra, smaller tabulated radius below every request (it changes no interpolated value)
+    ap_unit = 'arcsec' if (rc is not None or remove_resolved) else ['arcsec', 'arcmin', 'deg'][(hv // 5) % 3]
     rc = rc or recipes(c, nd, r)
     wavs = fw.band_wavelengths(nbands)
     os.makedirs(os.path.join(d, 'convolved'))
@@ -64,6 +68,10 @@ def build_world(root, cube, K, ulo, uhi, nd, c, fmt, memmap, r, distance_unit='k
             knots = [0.5 * knots[0]] + knots
             for m in range(nm):
                 vals[m] = [0.3 * vals[m][0]] + vals[m]
+        if ap_unit != 'arcsec':
+            knots = [0.5 * knots[0]] + knots
+            for m in range(nm):
+                vals[m] = [0.3 * vals[m][0]] + vals[m]
         cf = ConvolvedFluxes()
         cf.central_wavelength = wavs[j] * u.micron
         cf.model_names = np.array(names, dtype='U30')
@@ -75,7 +83,7 @@ def build_world(root, cube, K, ulo, uhi, nd, c, fmt, memmap, r, distance_unit='k
         pw.cube_object(names, [1.0, 2.0], [100.0, 200.0], lambda m, a, w: 1.0 + m + a + w, lambda m, a, w: 0.1, 'desc').write(os.path.join(d, 'flux.fits'))
     law = fw.make_extinction(K, wavs, variety=zlib.crc32(repr((K, list(names), fmt, ulo, uhi)).encode()))
     ft = fw.make_fitter(d, ['f%d' % j for j in range(nbands)], law, ulo, uhi, distance_range=[dist[0], dist[-1]], apertures=theta, use_memmap=memmap,
-                        distance_unit=distance_unit, remove_resolved=remove_resolved)
+                        distance_unit=distance_unit, remove_resolved=remove_resolved, aperture_unit=ap_unit)
     return d, ft, dist, names
 
 
